@@ -17,7 +17,7 @@ from ref.optable import op, push
 F, T = env.functions, env.tools
 FIELDS = (1, 2, 3, 8)
 FLAGS_Q = ('00', '01', '80')
-FLAGS_T = ('00', '01', '03', '80', 'fe')
+FLAGS_T = ('00', '01', '02', '03', '20', '40', '80', '7f', 'fe')
 
 
 def P(b):
